@@ -3,9 +3,9 @@
 package labrt
 
 import (
-	"context"
 	"bufio"
 	"bytes"
+	"context"
 	"encoding/json"
 	"fmt"
 	"io"
@@ -55,15 +55,16 @@ func Encode(v any) json.RawMessage {
 
 // Options of one mounted server.
 type Options struct {
-	BaseURL          string `json:"base_url,omitempty"`
-	Middlewares      int    `json:"middlewares,omitempty"`
-	ShortCircuit     int    `json:"short_circuit"` // index of the middleware that does not call next, -1 = none
-	StrictMw         int    `json:"strict_middlewares,omitempty"`
-	StrictShort      int    `json:"strict_short_circuit"`
-	ErrorHandler     bool   `json:"error_handler,omitempty"`
-	StrictRespType   string `json:"strict_response_type,omitempty"`
-	StrictRespJSON   json.RawMessage `json:"strict_response_json,omitempty"`
-	StrictHandlerErr bool   `json:"strict_handler_error,omitempty"`
+	BaseURL           string          `json:"base_url,omitempty"`
+	Middlewares       int             `json:"middlewares,omitempty"`
+	ShortCircuit      int             `json:"short_circuit"` // index of the middleware that does not call next, -1 = none
+	StrictMw          int             `json:"strict_middlewares,omitempty"`
+	StrictShort       int             `json:"strict_short_circuit"`
+	ErrorHandler      bool            `json:"error_handler,omitempty"`
+	StrictRespType    string          `json:"strict_response_type,omitempty"`
+	StrictRespJSON    json.RawMessage `json:"strict_response_json,omitempty"`
+	StrictHandlerErr  bool            `json:"strict_handler_error,omitempty"`
+	StrictWithOptions bool            `json:"strict_with_options,omitempty"` // net/http flavours: NewStrictHandlerWithOptions
 }
 
 // Package is what every laboratory package registers with the driver.
@@ -111,15 +112,15 @@ type UnionCall struct {
 }
 
 type Scenario struct {
-	ID     string      `json:"id"`
-	Pkg    string      `json:"pkg"`
-	Opts   Options     `json:"opts"`
-	Req    *RawReq     `json:"req,omitempty"`
-	Client *ClientCall `json:"client,omitempty"`
-	Parse  *ParseCall  `json:"parse,omitempty"`
-	Round  *RoundTrip  `json:"round,omitempty"`
-	Union  *UnionCall  `json:"union,omitempty"`
-	Swagger *struct{}  `json:"swagger,omitempty"` // call GetSwagger(), validate, return the document with references internalised
+	ID      string      `json:"id"`
+	Pkg     string      `json:"pkg"`
+	Opts    Options     `json:"opts"`
+	Req     *RawReq     `json:"req,omitempty"`
+	Client  *ClientCall `json:"client,omitempty"`
+	Parse   *ParseCall  `json:"parse,omitempty"`
+	Round   *RoundTrip  `json:"round,omitempty"`
+	Union   *UnionCall  `json:"union,omitempty"`
+	Swagger *struct{}   `json:"swagger,omitempty"` // call GetSwagger(), validate, return the document with references internalised
 }
 
 type Wire struct {
@@ -131,15 +132,15 @@ type Wire struct {
 }
 
 type Result struct {
-	ID         string              `json:"id"`
-	Err        string              `json:"err,omitempty"`
-	Wire       *Wire               `json:"wire,omitempty"`
-	Status     int                 `json:"status,omitempty"`
-	RespHeader map[string][]string `json:"resp_header,omitempty"`
-	RespBody   string              `json:"resp_body,omitempty"`
-	Trace      []Event             `json:"trace,omitempty"`
+	ID         string                     `json:"id"`
+	Err        string                     `json:"err,omitempty"`
+	Wire       *Wire                      `json:"wire,omitempty"`
+	Status     int                        `json:"status,omitempty"`
+	RespHeader map[string][]string        `json:"resp_header,omitempty"`
+	RespBody   string                     `json:"resp_body,omitempty"`
+	Trace      []Event                    `json:"trace,omitempty"`
 	Parsed     map[string]json.RawMessage `json:"parsed,omitempty"`
-	Out        []json.RawMessage   `json:"out,omitempty"`
+	Out        []json.RawMessage          `json:"out,omitempty"`
 }
 
 // Main reads scenarios (JSON lines) from stdin and writes results (JSON lines) to stdout.
